@@ -350,10 +350,14 @@ func (s *socket) RecvMsg() (*protocol.Message, error) {
 }
 
 func (s *socket) AddPipe(pp protocol.Pipe) error {
+	s.Lock()
+	sendQLen := s.sendQLen
+	s.Unlock()
+
 	p := &pipe{
 		p:      pp,
 		s:      s,
-		sendQ:  make(chan *protocol.Message, s.sendQLen),
+		sendQ:  make(chan *protocol.Message, sendQLen),
 		closeQ: make(chan struct{}),
 	}
 	pp.SetPrivate(p)
